@@ -93,7 +93,7 @@ def proj_write(op, out):
 
 TRIVIAL = {'init', 'dump', 'wf', 'lookup_all', 'reset_world'}
 
-def correspondence(ctx, session_fns, project, oracle, what, stream_name, driver='drv_api.c', impl_env=None, extra=(), san=None, model_is_spec=True):
+def correspondence(ctx, session_fns, project, oracle, what, stream_name, driver='drv_api.c', impl_env=None, extra=(), san=None, model_is_spec=True, probe_ops=()):
     """Run each session (a callable (impl, rng, stats) driving the harness interactively) on the
     implementation, replay the recorded ops on the model, compare the projected outputs and
     evaluate the direct oracle on the implementation's outputs."""
@@ -151,6 +151,11 @@ def correspondence(ctx, session_fns, project, oracle, what, stream_name, driver=
                 if model_is_spec:
                     ctx['violation']('failing-input', '%s: implementation and model (the proved specification) disagree on op %r' % (what, (mini[-1] if mini else o)[:200]),
                                      {'ops': mini, 'impl': io2[-3:], 'model': mo2[-3:], 'stream': stream_name}, True)
+                elif probe_ops and oracle and oracle(mini + list(probe_ops), run_impl_batch(exe, os.path.join(work, 'scratch'), mini + list(probe_ops), impl_env)[0]) is not None:
+                    # the disagreement leads to a state on which the property's own predicate fails
+                    po = mini + list(probe_ops)
+                    pio = run_impl_batch(exe, os.path.join(work, 'scratch'), po, impl_env)[0]
+                    ctx['violation']('failing-input', '%s: %s' % (what, oracle(po, pio)[1]), {'ops': po, 'impl': pio[-3:], 'stream': stream_name}, True)
                 else:
                     # the property's own predicate (direct oracle) held on everything explored; what broke is the tie between
                     # the model the theorems are about and the code
@@ -169,12 +174,12 @@ def correspondence(ctx, session_fns, project, oracle, what, stream_name, driver=
     cov['samples'] = cov.get('samples', []) + samples
     cov['traces_validated_against_impl'] = cov.get('traces_validated_against_impl', 0) + n_sessions
 
-def api_correspondence(ctx, profiles, sessions, n_ops, project, oracle, what, stream_name='api', model_is_spec=True):
+def api_correspondence(ctx, profiles, sessions, n_ops, project, oracle, what, stream_name='api', model_is_spec=True, probe_ops=()):
     fns = []
     for profile in profiles:
         for _ in range(sessions):
             fns.append(lambda impl, rng, stats, profile=profile: gen_api.session(impl, rng, n_ops, profile, stats))
-    correspondence(ctx, fns, project, oracle, what, stream_name, model_is_spec=model_is_spec)
+    correspondence(ctx, fns, project, oracle, what, stream_name, model_is_spec=model_is_spec, probe_ops=probe_ops)
 
 def hash_str(s):
     h = 0
@@ -269,9 +274,9 @@ def exhaustive_histories(depth):
 def run_C04(ctx):
     s, n = sizes(ctx, (6, 250), (40, 600))
     d = 3 if ctx['tier'] == 'quick' else 4
-    correspondence(ctx, [exhaustive_histories(d)], proj_shape, oracle_wf, 'C04 well-formedness', 'exhaustive<=%d' % d, model_is_spec=False)
+    correspondence(ctx, [exhaustive_histories(d)], proj_shape, oracle_wf, 'C04 well-formedness', 'exhaustive<=%d' % d, model_is_spec=False, probe_ops=('wf',))
     ctx['cov']['exhaustive_histories'] = {'alphabet': small_alphabet(), 'max_len': d}
-    api_correspondence(ctx, ['structure'], s, n, proj_shape, oracle_wf, 'C04 well-formedness', model_is_spec=False)
+    api_correspondence(ctx, ['structure'], s, n, proj_shape, oracle_wf, 'C04 well-formedness', model_is_spec=False, probe_ops=('wf',))
 
 def run_C05(ctx):
     s, n = sizes(ctx, (6, 250), (40, 600))
@@ -432,6 +437,9 @@ def run_C12(ctx):
         # outputs larger than the stdio buffer (4 KiB) and than 8 KiB
         texts.append(b''.join(b'k%d = "%s";\n' % (i, b'x' * 50) for i in range(100)))
         texts.append(b''.join(b'k%d = "%s";\n' % (i, b'y' * 90) for i in range(120)))
+        # outputs of exactly k*B-1, k*B, k*B+1 bytes for the stdio buffer sizes in use (the last byte alone in a new buffer-load)
+        for target in (4095, 4096, 4097, 8191, 8192, 8193, 12289):
+            texts.append(b'pad = "%s";\n' % (b'p' * (target - len(b'pad = "";\n'))))
         for text in texts:
             for fsync in (0, 1):
                 base = impl.do('wfcase %s %d none 0' % (hexs(text), fsync))
